@@ -168,12 +168,13 @@ func parseQCD(cs []byte) (style, guard int, sp []int, ok bool) {
 
 type C12Case struct {
 	W, H, Comps, P int
-	Signed        bool
-	Levels        int
-	Quality       int
-	CB            int
-	Content       int
-	Seed          uint64
+	Signed         bool
+	Levels         int
+	Quality        int
+	PrevQ          int // > 0: the Encoder object was used once before at this quality
+	CB             int
+	Content        int
+	Seed           uint64
 }
 
 func (k C12Case) pixels() ([]byte, []int) {
@@ -221,7 +222,17 @@ func c12Check(k C12Case, allowance float64) (string, string) {
 	p.CodeBlockWidth, p.CodeBlockHeight = k.CB, k.CB
 	var enc []byte
 	var err error
-	if pn, msg := Safely(func() { enc, err = jpeg2000.NewEncoder(p).Encode(pix) }); pn {
+	if pn, msg := Safely(func() {
+		e := jpeg2000.NewEncoder(p)
+		if k.PrevQ > 0 {
+			// the same Encoder object first used at another quality: the configuration of the
+			// second call is what the property quantifies over
+			p.Quality = k.PrevQ
+			_, _ = e.Encode(pix)
+			p.Quality = k.Quality
+		}
+		enc, err = e.Encode(pix)
+	}); pn {
 		return "encode-panic", msg
 	}
 	if err != nil {
@@ -351,7 +362,7 @@ func quantiserCanOverflow(k C12Case, src []int, steps []float64) bool {
 }
 
 func runC12(c *Ctx) {
-	c.R.Rule = "irreversible 9/7 single-tile, no rate target: sizes 1..24 (quick) / 1..96 (thorough) with the per-sample bound computed from the QCD step sizes of the emitted stream through an independent float64 inverse 9/7 (exact absolute impulse-response sums, separable per band); comps {1,3}; P {8,12,16}; signed; quality 1..100; levels 0..6; a class of flat range-end images at P 12..16 with quality 85..100; code-blocks 16/32/64; allowance max(2, 2^(P-13)) (+3 for colour); non-trivial = non-constant content"
+	c.R.Rule = "irreversible 9/7 single-tile, no rate target: sizes 1..24 (quick) / 1..96 (thorough) with the per-sample bound computed from the QCD step sizes of the emitted stream through an independent float64 inverse 9/7 (exact absolute impulse-response sums, separable per band); comps {1,3}; P {8,12,16}; signed; quality 1..100; levels 0..6; a class of flat range-end images at P 12..16 with quality 85..100; code-blocks 16/32/64; one case in ten on an Encoder object already used at another quality; allowance max(2, 2^(P-13)) (+3 for colour); non-trivial = non-constant content"
 	n := c.N(400, 5000)
 	rng := c.Rng.Fork()
 	cases := make([]C12Case, n)
@@ -382,6 +393,9 @@ func runC12(c *Ctx) {
 			k.Quality = rng.Pick(100, 100, 99, 97, 95, 90, 85)
 			k.Levels = rng.Pick(6, 6, 5, 4, 3)
 			k.Content = rng.Pick(6, 6, 1)
+		}
+		if rng.Intn(10) == 0 {
+			k.PrevQ = rng.Pick(100, 95, 60, 30, 5, rng.Range(1, 100))
 		}
 		if i == 0 { // smallest known member of the flat range-end class (finding F51)
 			k = C12Case{Seed: 7, W: 16, H: 16, Comps: 1, P: 16, Levels: 6, Quality: 100, CB: 64, Content: 6}
